@@ -530,6 +530,8 @@ func (c *Ctx) specSort(name string) (types.Type, Sort) {
 		return nil, SFP
 	case "array_real":
 		return nil, ArrSort(SInt, SReal)
+	case "array_xf":
+		return nil, ArrSort(SInt, SF)
 	case "array_int":
 		return nil, ArrSort(SInt, SInt)
 	case "array_byte":
